@@ -97,7 +97,10 @@ def relocate_to_radial_minimum(func):
             if hasattr(grid, "with_new_array"):
                 moved_grid = grid.with_new_array(moved_grid)
 
-        moved_grid[np.isnan(np.array(moved_grid))] = grid_radial_minimum
+        # A coordinate at the centre has no direction (0.0 * inf = nan): it is placed on the diagonal, with both
+        # components chosen such that its radial distance is the radial minimum.
+
+        moved_grid[np.isnan(np.array(moved_grid))] = grid_radial_minimum * np.sqrt(0.5)
 
         return func(obj, moved_grid, *args, **kwargs)
 
